@@ -41,7 +41,9 @@ class PcaClassifier:
         self.n_components = n_components
         self.n_clusters = n_clusters
 
-        self._pca = PCA(n_components=n_components)
+        # exact (tall-and-skinny) SVD: the default 'auto' picks an unseeded randomized SVD
+        # without power iterations for any stack with more than 500 voxels or images.
+        self._pca = PCA(n_components=n_components, svd_solver="full")
         self._kmeans = KMeans(n_clusters=n_clusters, random_state=seed, n_init=10)
 
     @property
